@@ -30,9 +30,12 @@ peg::parser! {
                 json
             }
 
+        // A JSON string literal: braces inside it are data, not structure
+        rule json_string() = "\"" ("\\" [_] / (!['"' | '\\'] [_]))* "\""
+
         // Match balanced braces and capture everything including the braces
         rule balanced_braces() -> &'input str
-            = json:$( "{" (balanced_braces() / (!"}" [_]))* "}" ) {
+            = json:$( "{" (balanced_braces() / json_string() / (!"}" [_]))* "}" ) {
                 json
             }
 
